@@ -495,6 +495,38 @@ def late_registration(ctx):
                           universe="late", offers=[], source="R", target="IR")
         else:
             ctx.outcome("self-provides")
+    # the class is registered with the protocol an *offer* adapts from
+    for rounds in range(3):
+        ctx.ev()
+        ctx.tr()
+        IP = abc.ABCMeta("IP%d" % rounds, (), {})
+        IT = abc.ABCMeta("IT%d" % rounds, (), {})
+        R = type("Q%d" % rounds, (Base17,), {})
+
+        class Ad:
+            def __init__(self, adaptee):
+                self.adaptee = adaptee
+        IT.register(Ad)
+        mgr = AdaptationManager()
+        mgr.register_factory(Ad, IP, IT)
+        obj = R()
+        first = mgr.adapt(obj, IT, None)
+        IP.register(R)
+        second = mgr.adapt(obj, IT, None)
+        if first is not None:
+            ctx.violation("C17:late-registration:before", "object adapted "
+                          "through an offer for a protocol it does not "
+                          "provide", universe="late", offers=[["IP", "IT"]],
+                          source="Q", target="IT")
+        elif not isinstance(second, Ad) or second.adaptee is not obj or \
+                not mgr.supports_protocol(obj, IT):
+            ctx.violation("C17:late-registration:stale-offer", "after "
+                          "IP.register(Q) an offer IP -> IT applies to the "
+                          "object, but adapt gives %r" % (second,),
+                          universe="late", offers=[["IP", "IT"]],
+                          source="Q", target="IT")
+        else:
+            ctx.outcome("adapted-1")
 
 
 def branch_universe(ctx, chunk, of):
